@@ -113,7 +113,7 @@ func runC03(c *Ctx) {
 
 		if c.NeedFunc("R03.2", deliver, "Watch delivery goroutine") {
 			c.MustCut("R03.2", "delivery loop ⊣ {initial event sent, tail/bookmark mode}", deliver, p.PlainCallTo("(*sync.Mutex).Lock"),
-				CutSpec{Edges: FactEdge("true(call:"+gSend+"(free:param#1,free:param#3,*free:var:pkg/state.Event))", "gt(*free:var:pkg/state.Watch*Options.TailEvents,const:0)", "nonnil(*free:var:pkg/state.Watch*Options.StartFromBookmark)")}, 1)
+				CutSpec{Edges: FactEdge("true(call:"+gSend+"(free:param#1,free:param#3,*free:var:pkg/state.Event))", "gt(*var:pkg/state.Watch*Options.TailEvents,const:0)", "nonnil(*var:pkg/state.Watch*Options.StartFromBookmark)")}, 1)
 			// the goroutines are spawned after the snapshot
 			c.MustCut("R03.2", "go delivery ⊣ {storage lookup / bookmark / tail position computed}", fWatch,
 				func(in ssa.Instruction) bool { g, ok := in.(*ssa.Go); return ok && StaticOrClosureCallee(g) == deliver },
